@@ -125,6 +125,20 @@ std::string Scenario::CommandLine(const Stmt& s) const {
 static bool DyndepOnRule(const Stmt& s) { return !s.phony && !s.dyndep.empty() && Hash64(s.dyndep, (uint64_t)s.id * 31 + 7) % 2 == 0; }
 
 // A third of the statements with deps / depfile bind them on the build statement instead of the rule.
+std::string MsvcPrefix(const Stmt& s) {
+  if (s.deps_kind != 3 || s.outs.empty()) return "Note: including file: ";
+  switch (Hash64(s.outs[0], (uint64_t)s.id * 7 + 3) % 6) {
+    case 0: return "Remarque : inclusion du fichier : ";
+    case 1: return "INC>";
+    default: return "Note: including file: ";
+  }
+}
+static std::string MsvcPrefixBinding(const Stmt& s) {
+  std::string p = MsvcPrefix(s);
+  if (p == "Note: including file: ") return std::string();
+  while (!p.empty() && p.back() == ' ') p.pop_back();   // ninja skips the blanks between prefix and path itself
+  return "  msvc_deps_prefix = " + p + "\n";
+}
 static bool DepsOnBuild(const Stmt& s) { return s.deps_kind != 0 && !s.outs.empty() && Hash64(s.outs[0], (uint64_t)s.id * 17 + 11) % 3 == 0; }
 
 static void PrintStmt(const Scenario& sc, const Stmt& s, std::string* o) {
@@ -146,7 +160,7 @@ static void PrintStmt(const Scenario& sc, const Stmt& s, std::string* o) {
       else *o += "  depfile = " + NinjaValueEscape(s.depfile) + "\n";
     }
     if (s.deps_kind == 2 && !DepsOnBuild(s)) *o += "  deps = gcc\n";
-    if (s.deps_kind == 3 && !DepsOnBuild(s)) *o += "  deps = msvc\n";
+    if (s.deps_kind == 3 && !DepsOnBuild(s)) *o += "  deps = msvc\n" + MsvcPrefixBinding(s);
     if (s.rsp) {
       *o += "  rspfile = " + NinjaValueEscape(s.rsp_path) + "\n";
       if (s.rsp_kind == 0) *o += "  rspfile_content = $in\n";
@@ -170,7 +184,7 @@ static void PrintStmt(const Scenario& sc, const Stmt& s, std::string* o) {
   if (DepsOnBuild(s)) {
     if (s.deps_kind == 1 || s.deps_kind == 2) *o += "  depfile = " + NinjaValueEscape(s.depfile) + "\n";
     if (s.deps_kind == 2) *o += "  deps = gcc\n";
-    if (s.deps_kind == 3) *o += "  deps = msvc\n";
+    if (s.deps_kind == 3) *o += "  deps = msvc\n" + MsvcPrefixBinding(s);
   }
 }
 
